@@ -127,12 +127,14 @@ for _fam in [f for f in list(MODEL) if f.startswith('condorcet_') or f in ('smit
     MODEL[_fam + '_sparse'] = ((lambda prof, n, _op=_op: dict(_op(prof, n), bottom=False)), 'sel')
 PROVED_FAMILIES = list(MODEL)
 # models of C08 (Baldwin, n-seat PreferenceAddition), C05 (Benham: benhamN = AssertionError unless n = 1; Tideman: tidemanN, any n) and C12 (STAR)
-PROVED_FAMILIES += ['pure_proportionality', 'pure_proportionality_constrained', 'baldwin', 'benham', 'tideman_alternative', 'star', 'bucklin', 'oklahoma']
+PROVED_FAMILIES += ['pure_proportionality', 'pure_proportionality_constrained', 'baldwin', 'benham', 'tideman_alternative', 'star', 'bucklin', 'oklahoma', 'bucklin_whole', 'oklahoma_whole']
 MODEL['pure_proportionality'] = (_simple('pure_proportionality', prev=None, max=None), 'dist')
 MODEL['pure_proportionality_constrained'] = (_simple('c10_pure_constrained'), 'dist')
 MODEL['baldwin'] = (_simple('baldwin'), 'sel')
 MODEL['bucklin'] = (_simple('preference_addition', coef='bucklin', split=True), 'sel')
 MODEL['oklahoma'] = (_simple('preference_addition', coef='oklahoma', split=True), 'sel')
+MODEL['bucklin_whole'] = (_simple('preference_addition', coef='bucklin', split=False), 'sel')
+MODEL['oklahoma_whole'] = (_simple('preference_addition', coef='oklahoma', split=False), 'sel')
 MODEL['benham'] = ((lambda prof, n: dict(op='c10_benham', profile=prof, n=n)), 'sel')
 MODEL['tideman_alternative'] = ((lambda prof, n: dict(op='tideman', profile=prof, smith=True, n=n)), 'sel')
 MODEL['star'] = ((lambda prof, n: dict(op='c10_star', votes=[[[[c, str(sc)] for c, sc in b], int(w)] for b, w in prof], n=n,
